@@ -25,7 +25,7 @@ THEOREMS = ["ctor_rejects_non_frames", "raw_passthrough", "raw_passthrough_none"
             "missing_or_garbled", "enum_rejects_undefined", "enum_missing_or_garbled",
             "bitmap_status", "bit_attr", "unknown_attr",
             "str_never_raises_missing_or_response_error", "faithful_of_wellFormed",
-            "table_wellFormed", "faithful", "str_total", "str_raised_before_fix"]
+            "table_wellFormed", "table_matches_standard", "faithful", "str_total", "str_raised_before_fix"]
 TRUSTED = ["hand-written model Model/Response.lean of the response classes (dali/command.py, dali/gear/*.py, "
            "dali/device/general.py), tied by this correspondence: EXHAUSTIVE — every reachable class x 513 "
            "outcomes x every accessor, on every run",
@@ -245,6 +245,35 @@ def mangling_checks(table, model, corr):
     return viol
 
 
+def row_of(d):
+    return ("ok exp=%d erra=%d bits=%s members=%s types=%s" % (
+        d["expected"], d["errorAcceptable"], "|".join(d["bits"]),
+        ",".join("%s:%d" % m for m in d["members"]), "|".join("%d:%s" % t for t in d["types"])))
+
+
+def standard_checks(table, fr, model, corr):
+    """the class data of the real classes vs the independently transcribed
+    Spec.Resp.table; a differing bit name is reported with the clean frame that
+    has exactly that bit set (its `status` then names the wrong thing)"""
+    viol = []
+    ans = model.batch(["spec row " + k for k, _c, _d in table])
+    for (key, cls, d), a in zip(table, ans):
+        corr.count("standard_table", 1)
+        have = row_of(d)
+        if " ".join(a.split()) == " ".join(have.split()):
+            continue
+        inp = {"class": key, "accessor": "table"}
+        if a != "ok absent":
+            want_bits = a.split(" bits=")[1].split(" members=")[0].split("|")
+            for i, (w, h) in enumerate(zip(want_bits + [""] * 8, d["bits"] + [""] * 8)):
+                if w != h and i < 8:
+                    inp = {"class": key, "accessor": "table", "outcome": "k%d" % (1 << i),
+                           "status": observe(lambda: cls(fr.BackwardFrame(1 << i)).status, fr)}
+                    break
+        viol.append(("resp:%s:table" % cls.__name__, inp, a, have))
+    return viol
+
+
 def correspond(ctx, corr):
     from dali import frame as fr
     model = Model("m_resp") if ctx.model_available else None
@@ -270,6 +299,9 @@ def correspond(ctx, corr):
     if model is not None:
         for k, inp, exp, obs in mangling_checks(table, model, corr):
             corr.violate(k, inp, exp, obs, "named bits must be exposed under the mangled names")
+        for k, inp, exp, obs in standard_checks(table, fr, model, corr):
+            corr.violate(k, inp, exp, obs, "class data differs from the transcribed standard table "
+                         "(Spec/ResponseTable.lean)")
     corr.exhaustive["all classes x 513 outcomes x all accessors"] = True
     corr.exhaustive["constructor argument kinds"] = True
     from dali.gear import general
@@ -308,6 +340,8 @@ def replay(ctx, payload):
     c = C()
     if inp.get("accessor") == "ctor" and "arg" in inp:
         viol = [x for x in ctor_checks([(inp["class"], cls, d)], fr, model, c) if x[1].get("arg") == inp["arg"]]
+    elif inp.get("accessor") == "table":
+        viol = standard_checks([(inp["class"], cls, d)], fr, model, c)
     elif inp.get("accessor") == "_bit_properties":
         viol = mangling_checks([(inp["class"], cls, d)], model, c)
     else:
